@@ -16,7 +16,9 @@ EXPLANATION = ("Every function on the receive path carries an exhaustive `raises
 
 
 def build(world):
-    return hc.build_for(world, PROP, every_unit=True) + gu.listen_units(world) + gu.send_units(world) + gu.codec_units(world, ["load_line"])
+    # (get_protocol and the version setter: the receive path relies on their raising nothing but ValueError)
+    return (hc.build_for(world, PROP, every_unit=True) + gu.listen_units(world) + gu.send_units(world) + gu.codec_units(world, ["load_line"])
+            + [u for u in gu.version_units(world) if "__init__" not in u.name])
 
 
 def replay(world, ob):
